@@ -1,6 +1,7 @@
 package gabi
 
 import (
+	"github.com/privacybydesign/gabi/rangeproof"
 	"fmt"
 
 	"github.com/privacybydesign/gabi/big"
@@ -134,8 +135,17 @@ func vpC03_O1() {
 	}
 	ctx, nonce := vpBigBits("ctx", 256), vpBigBits("nonce", 80)
 	k1, k2 := vpChoose("kind0", 2), vpChoose("kind1", 2)
-	builders := ProofBuilderList{vpBuilder(0, k1, pk, sk, s1, ctx), vpBuilder(1, k2, pk, sk, s2, ctx)}
-	keys := []*gabikeys.PublicKey{pk, pk}
+	// the second proof is under the same key, under another key of the same size, or under a
+	// 2048-bit key (linking is by secret, whatever the keys are)
+	pk2, sk2 := pk, sk
+	switch vpChoose("secondKey", 3) {
+	case 1:
+		pk2, sk2 = vpKeys(1, 3, 1024, false)
+	case 2:
+		pk2, sk2 = vpKeys(1, 3, 2048, false)
+	}
+	builders := ProofBuilderList{vpBuilder(0, k1, pk, sk, s1, ctx), vpBuilder(1, k2, pk2, sk2, s2, ctx)}
+	keys := []*gabikeys.PublicKey{pk, pk2}
 	pl, err := builders.BuildProofList(ctx, nonce, false)
 	vpAssume(err == nil)
 	c := pl[0].(interface{ Challenge() *big.Int }).Challenge()
@@ -165,7 +175,7 @@ func vpC03_O1() {
 			vpAssume(diff.Sign() > 0)
 			pd := pl[1].(*ProofD)
 			pd.ADisclosed[0] = diff
-			pd.AResponses[0] = new(big.Int).Sub(pd.AResponses[0], new(big.Int).Mul(c, vpEff(diff, pk)))
+			pd.AResponses[0] = new(big.Int).Sub(pd.AResponses[0], new(big.Int).Mul(c, vpEff(diff, pk2)))
 		}
 	}
 	ok := pl.Verify(keys, ctx, nonce, false, labels)
@@ -267,4 +277,49 @@ func vpC02_O3() {
 		changed = createChallenge(ctx, nonce, contribs, !issig)
 	}
 	vpAssert("the challenge depends on context, nonce, every contribution and the session flag", changed.Cmp(base) != 0)
+}
+
+func init() {
+	vpHarnesses["vpC02_O4"] = vpC02_O4
+}
+
+// C02-O4: range sub-proofs are part of what a session binds. A disclosure proof with
+// a (true) range statement on hidden attribute ra - the highest hidden attribute or
+// not - made by the real prover for session A verifies in session A; with its range
+// sub-proof replaced by the one made for the same statement in another session B
+// (other context or nonce) it does not; and a proof of session A that carries no
+// range statement does not verify with session B's range sub-proof spliced in.
+func vpC02_O4() {
+	pk, sk := vpKeys(0, 4, 1024, false)
+	cred := vpCredential(pk, sk, "a", 2, 256)
+	ra := 1 + vpChoose("rangeAttr", 2)
+	other := 3 - ra
+	var disclosed []int
+	if vpBool("otherDisclosed") {
+		disclosed = []int{other}
+	}
+	bound := vpBig("bound")
+	vpAssume(cred.Attributes[ra].Cmp(bound) >= 0 && new(big.Int).Sub(cred.Attributes[ra], bound).BitLen() <= 255)
+	stmts := func() map[int][]*rangeproof.Statement {
+		return map[int][]*rangeproof.Statement{ra: {{Sign: 1, Factor: 1, Bound: bound}}}
+	}
+	ctxA, nonceA := vpBigBits("ctx", 256), vpBigBits("nonce", 80)
+	ctxB, nonceB := vpBigBits("ctxB", 256), vpBigBits("nonceB", 80)
+	vpAssume(ctxA.Cmp(ctxB) != 0 || nonceA.Cmp(nonceB) != 0)
+	proofB, err := cred.CreateDisclosureProof(disclosed, stmts(), false, ctxB, nonceB)
+	vpAssume(err == nil && proofB.C.Sign() != 0)
+	if vpBool("plainA") {
+		plain, err := cred.CreateDisclosureProof(disclosed, nil, false, ctxA, nonceA)
+		vpAssume(err == nil && plain.C.Sign() != 0)
+		vpAssert("the plain proof verifies in its session", plain.Verify(pk, ctxA, nonceA, false))
+		plain.RangeProofs = map[int][]*rangeproof.Proof{ra: proofB.RangeProofs[ra]}
+		vpAssert("a range sub-proof of another session spliced into a plain proof is rejected", !plain.Verify(pk, ctxA, nonceA, false))
+		return
+	}
+	proofA, err := cred.CreateDisclosureProof(disclosed, stmts(), false, ctxA, nonceA)
+	vpAssume(err == nil && proofA.C.Sign() != 0)
+	vpAssert("a proof with a range statement verifies in its session", proofA.Verify(pk, ctxA, nonceA, false))
+	vpAssert("a proof with a range statement does not verify in another session", !proofA.Verify(pk, ctxB, nonceB, false))
+	proofA.RangeProofs[ra] = proofB.RangeProofs[ra]
+	vpAssert("a range sub-proof replaced by that of another session is rejected", !proofA.Verify(pk, ctxA, nonceA, false))
 }
